@@ -85,7 +85,19 @@ func init() {
 			m.Fields[fieldIndex(mt, "Value")] = a[2]
 			return PtrVal{Obj: st.alloc(m)}
 		}
-		e.intr["(*"+prsPkg+".VectorSelector).String"] = func(e *Engine, st *State, cc *ssa.CallCommon, a []Value) Value {
+		prevVSString := e.intr["(*"+prsPkg+".VectorSelector).String"] // intr_c20.go: a placeholder for symbolic selectors
+		e.intr["(*"+prsPkg+".VectorSelector).String"] = func(e *Engine, st *State, cc *ssa.CallCommon, a []Value) (res Value) {
+			if prevVSString != nil {
+				defer func() {
+					if r := recover(); r != nil {
+						if _, ok := r.(Unsupported); ok {
+							res = prevVSString(e, st, cc, a)
+							return
+						}
+						panic(r)
+					}
+				}()
+			}
 			vt := e.foreignType(prsPkg, "VectorSelector")
 			p := a[0].(PtrVal)
 			if p.Obj == 0 {
